@@ -8,6 +8,7 @@ package main
 
 import (
 	"bytes"
+	"context"
 	"crypto/sha256"
 	"encoding/json"
 	"fmt"
@@ -45,6 +46,68 @@ type RetainEv struct {
 	Len       int    `json:"len"`
 	Limit     int    `json:"limit"`
 	Mode      string `json:"mode"`
+}
+
+// A download serves a handler-owned asset (a cached file) as an HttpBody reply: the asset belongs to the application
+// and must neither change nor turn up in anybody else's buffers.
+type downloadRun struct {
+	c      UploadCase
+	asset  []byte
+	digest [32]byte
+	intact bool // the client received exactly the asset
+	crash  string
+	status int
+}
+
+func runDownload(c UploadCase) *downloadRun {
+	d := &downloadRun{c: c}
+	d.asset = make([]byte, c.Len, c.Len+64) // spare capacity, like a slice of a larger cache
+	for i := range d.asset {
+		d.asset[i] = byte((i*17 + c.ID*5) % 249)
+	}
+	d.digest = sha256.Sum256(d.asset)
+	svc := ServiceSpec{Name: "Dl", Methods: []MethodSpec{{Name: "Download", Out: ".google.api.HttpBody", Rule: httpRule("GET", "/t/download/{s}")}}}
+	files, sds, err := BuildFiles([]ServiceSpec{svc})
+	if err != nil {
+		d.crash = "setup: " + err.Error()
+		return d
+	}
+	mux, err := larking.NewMux(larking.FilesOption(files))
+	if err != nil {
+		d.crash = "setup: " + err.Error()
+		return d
+	}
+	un := func(ctx context.Context, full string, req *dynamicpb.Message) (proto.Message, error) {
+		return &httpbody.HttpBody{ContentType: "application/x-asset", Data: d.asset}, nil
+	}
+	if err := larking.VerifRegisterService(mux, MakeServiceDesc(sds[0], un, nil), struct{}{}); err != nil {
+		d.crash = "setup: " + err.Error()
+		return d
+	}
+	for k := 0; k < 3; k++ { // the same asset is served repeatedly
+		req := httptest.NewRequest("GET", "http://verif.test/t/download/x", nil)
+		w := httptest.NewRecorder()
+		func() {
+			defer func() {
+				if p := recover(); p != nil {
+					d.crash = fmt.Sprint(p)
+				}
+			}()
+			mux.ServeHTTP(w, req)
+		}()
+		d.status = w.Code
+		d.intact = w.Code == 200 && sha256.Sum256(w.Body.Bytes()) == d.digest
+		if !d.intact {
+			break
+		}
+	}
+	return d
+}
+
+func (d *downloadRun) event() RetainEv {
+	// (after the whole mix) the asset is still what it was, and every client got it whole
+	return RetainEv{Ev: "Retain", Case: d.c.ID, Chunks: 1, Bytes: len(d.asset), Stable: sha256.Sum256(d.asset) == d.digest, Concat: d.intact,
+		Crash: d.crash, Len: d.c.Len, Limit: d.c.Limit, Mode: "download"}
 }
 
 type retained struct {
@@ -187,13 +250,19 @@ func concMain(args []string) error {
 	var wg sync.WaitGroup
 	var mu sync.Mutex
 	var uploads []*uploadRun
+	var downloads []*downloadRun
 	var keep []RpcEv
 	for i := 0; i < *workers; i++ {
 		wg.Add(1)
 		go func() {
 			defer wg.Done()
 			for it := range work {
-				if it.uc != nil {
+				if it.uc != nil && it.uc.Mode == "download" {
+					d := runDownload(*it.uc)
+					mu.Lock()
+					downloads = append(downloads, d)
+					mu.Unlock()
+				} else if it.uc != nil {
 					u := runUpload(*it.uc)
 					mu.Lock()
 					uploads = append(uploads, u)
@@ -218,6 +287,9 @@ func concMain(args []string) error {
 	}
 	for _, u := range uploads {
 		tw.Emit(u.event())
+	}
+	for _, d := range downloads {
+		tw.Emit(d.event())
 	}
 	fmt.Printf("conc: rpcs=%d uploads=%d events=%d\n", len(keep), len(uploads), tw.n)
 	return tw.Close()
